@@ -127,7 +127,8 @@ func init() {
 		Assumptions: []string{loopAssumption, hookAssumption + " (decides the unset default 255.255.255.255:60000, which nobody can listen on here)", "controllers are told apart by unique serial numbers; each worker goroutine owns its farm and runs its cases one at a time"},
 		Plan: func(tier string) []Batch {
 			b := same(n(tier, 2, 8), Batch{Mode: "hook", Timeout: 20 * time.Minute})
-			return append(b, same(n(tier, 2, 6), Batch{Mode: "loopback", Timeout: 30 * time.Minute, Procs: 8})...)
+			b = append(b, same(n(tier, 2, 6), Batch{Mode: "loopback", Timeout: 30 * time.Minute, Procs: 8})...)
+			return append(b, same(n(tier, 2, 4), Batch{Mode: "netns", Netns: true, Timeout: 30 * time.Minute, Procs: 4})...)
 		}}
 }
 
@@ -144,13 +145,14 @@ func init() {
 }
 
 func init() {
-	specs["C09"] = &Spec{ID: "C09", Level: "fault_enumeration", Parallel: 2,
+	specs["C09"] = &Spec{ID: "C09", Level: "fault_enumeration", Parallel: 3,
 		Assumptions: []string{loopAssumption, "time is the property: verdicts use measured times with 1.5 s of scheduling slack on the late side and 7% on the early side; an in-time reply creates an obligation only if the farm measurably sent it within 0.8 T of receiving the request; in the parallel leak batches a failed must-succeed call is confirmed by a second attempt", "library sockets are recognised by their local address (clients bind 127.0.0.2, listeners 127.0.0.3; the farm lives on 127.0.0.1)", "SYN black holes cannot be produced on loopback without privileges: the dial path is driven by refused / reset / stalled peers and unreachable networks"},
 		Plan: func(tier string) []Batch {
 			if tier == "thorough" {
-				return []Batch{{Mode: "plain", Procs: 8, Timeout: 60 * time.Minute}, {Mode: "plain", Procs: 8, Timeout: 60 * time.Minute}, {Mode: "race", Race: true, Procs: 8, Timeout: 60 * time.Minute}, {Mode: "plain", Procs: 2, Timeout: 60 * time.Minute}}
+				return []Batch{{Mode: "plain", Procs: 8, Timeout: 60 * time.Minute}, {Mode: "plain", Procs: 8, Timeout: 60 * time.Minute}, {Mode: "race", Race: true, Procs: 8, Timeout: 60 * time.Minute}, {Mode: "plain", Procs: 2, Timeout: 60 * time.Minute},
+					{Mode: "netns", Netns: true, Procs: 4, Timeout: 30 * time.Minute}, {Mode: "netns", Netns: true, Race: true, Procs: 4, Timeout: 30 * time.Minute}}
 			}
-			return []Batch{{Mode: "plain", Procs: 8, Timeout: 20 * time.Minute}, {Mode: "race", Race: true, Procs: 8, Timeout: 20 * time.Minute}}
+			return []Batch{{Mode: "plain", Procs: 8, Timeout: 20 * time.Minute}, {Mode: "race", Race: true, Procs: 8, Timeout: 20 * time.Minute}, {Mode: "netns", Netns: true, Procs: 4, Timeout: 20 * time.Minute}}
 		}}
 }
 
